@@ -101,6 +101,9 @@ func c17(r *Report) propMeta {
 	// genesis import agreements of C08
 	r.Include("C08", "C08.R5")
 
+	r.Rule("C17.lint", "E8 module lint: no nondeterminism / process-local state in x/tunnel")
+	r.ModuleLint("module-lint", "tunnel", 20)
+
 	return propMeta{
 		Decided: []string{
 			"R1 every tunnel msgServer method whose request carries Creator+TunnelID (5 today, new ones checked automatically) gates every keeper write by msg.Creator == GetTunnel(msg.TunnelID).Creator",
@@ -110,6 +113,7 @@ func c17(r *Report) propMeta {
 			"R5 WithdrawFromTunnel deactivates exactly under IsActive && !postWithdrawTotal.IsAllGTE(MinDeposit), after the new total was saved",
 			"R6 every KV-store Get/Has/Delete of x/tunnel uses a key builder of x/tunnel/types that some Set of the module also uses (a probe of an iteration prefix or of a sibling family is always-empty state)",
 			"R7 genesis: ValidateGenesis compares the total deposit of EVERY tunnel (loop over GenesisState.Tunnels, no early way out) with the sum of its deposit records before it accepts the state; InitGenesis puts every imported tunnel flagged active into the active-id set on every path of the loop body (seeds C17-5, C17-6)",
+			"lint: the determinism lint (incl. writes to memory held by long-lived objects) over everything reachable from the handlers and blockers of x/tunnel",
 		},
 		Undecided: []string{"equality of the three ledgers (records, total, module balance) over histories"},
 		Assume:    []string{"msg handlers atomic", "bank Send* all-or-nothing"},
